@@ -354,7 +354,7 @@ func Harness_C07_quads() {
 }
 
 // Harness_C13_expiry: CompactAll's rewrite with an expiry configuration drops exactly the expired entries and alters no ref.
-// bounds: 2 tables (thorough 3), each one ref and 1..2 reflog entries for names a,b with symbolic time (0..255; the entries carry hashes, so time 0 does not make them deletions) and distinct concrete update indices 1..2k; the three limits Time, MinUpdateIndex, MaxUpdateIndex are arbitrary 64-bit values (0 = unset)
+// bounds: 2 tables (thorough 3), each one ref and 1..2 reflog entries for names a,b with symbolic time (0..255; the entries carry hashes, so time 0 does not make them deletions), an arbitrary 16-bit time zone offset (which plays no part in expiry) and distinct concrete update indices 1..2k; the three limits Time, MinUpdateIndex, MaxUpdateIndex are arbitrary 64-bit values (0 = unset)
 // covers: done
 func Harness_C13_expiry() {
 	cfg := Config{BlockSize: 256, HashID: SHA1ID}
@@ -367,7 +367,7 @@ func Harness_C13_expiry() {
 		ts.refs = append(ts.refs, RefRecord{RefName: "a", UpdateIndex: uint64(t + 1), Value: hashWith(20, byte(t), 1)})
 		n := VerifIntRange(1, 2)
 		for i := 0; i < n; i++ {
-			l := LogRecord{RefName: string([]byte{'a' + byte(i)}), UpdateIndex: uint64(2*t + i + 1), Time: uint64(VerifU8()),
+			l := LogRecord{RefName: string([]byte{'a' + byte(i)}), UpdateIndex: uint64(2*t + i + 1), Time: uint64(VerifU8()), TZOffset: int16(VerifU16()),
 				New: hashWith(20, byte(t), byte(i)), Old: hashWith(20, 0, 0), Message: "m\n"}
 			ts.logs = append(ts.logs, l)
 		}
